@@ -64,48 +64,59 @@ def run(ctx):
     quick = ctx.tier == "quick"
     rng = ctx.rng
     variants = ["pp", "ip", "ea"] + ([] if quick else ["dip", "dea"])
-    configs = [("mp", False)] + ([] if quick else [("mp", True), ("re", False)])
+    configs = [("mp", False), ("mp", True)] + ([] if quick
+                                               else [("re", False)])
     pairs = []
     for part, singles in configs:
+        # quick tier with first-order singles: only the symmetry of the
+        # lowest-class pp precursor overlap through third order
+        only_prec = quick and singles
         gs = adcgen.GroundState(adcgen.Operators(variant=part),
                                 first_order_singles=singles)
-        for variant in variants:
+        for variant in (["pp"] if only_prec else variants):
             isr = adcgen.IntermediateStates(gs, variant)
             cls = CLASSES[variant]
             for bs, ks in itertools.product(cls, cls):
                 lowest = (bs == cls[0] and ks == cls[0])
+                if only_prec and not lowest:
+                    continue
                 # cross-class overlaps through second order also in the quick
                 # tier: this is where the projection prefactor defect
                 # (fixed in be45c67) showed
-                max_order = (2 if quick else 3) if lowest else 2
+                max_order = (2 if quick and not only_prec else 3) \
+                    if lowest else 2
                 if bs != cls[0] and ks != cls[0]:
                     max_order = 0 if quick else 1
                 for order in range(max_order + 1):
                     ib, ik = NAMES[bs][0], NAMES[ks][1]
                     tg = get_symbols(ib + ik)
                     t0 = time.time()
-                    try:
-                        ov = isr.overlap_isr(order, f"{bs},{ks}",
-                                             f"{ib},{ik}")
-                    except Exception as ex:
-                        ctx.violation(
-                            f"C04:overlap-exception:{variant}:{bs},{ks}:"
-                            f"{order}", f"overlap_isr raised {ex!r}", {},
-                            False)
-                        continue
-                    want = expected_overlap(bs, ks) if order == 0 else S.Zero
                     label = (f"overlap_isr:{part}{'+s' if singles else ''}:"
                              f"{variant}:{bs},{ks}:{order}")
-                    pairs.append(EQ.Pair(
-                        Expr(ov, target_idx=tg).expand(),
-                        Expr(want, target_idx=tg), tg, label, deltas=True))
-                    ctx.case(key=label, nontrivial=order >= 1 or bs != ks,
-                             sample={"relation": label, "terms": len(
-                                 Add.make_args(Expr(ov).expand().sympy)),
-                                 "derive_s": round(time.time() - t0, 1)},
-                             kind=f"overlap_isr:{variant}")
+                    if not only_prec:
+                        try:
+                            ov = isr.overlap_isr(order, f"{bs},{ks}",
+                                                 f"{ib},{ik}")
+                        except Exception as ex:
+                            ctx.violation(
+                                f"C04:overlap-exception:{variant}:{bs},{ks}:"
+                                f"{order}", f"overlap_isr raised {ex!r}", {},
+                                False)
+                            continue
+                        want = expected_overlap(bs, ks) if order == 0 \
+                            else S.Zero
+                        pairs.append(EQ.Pair(
+                            Expr(ov, target_idx=tg).expand(),
+                            Expr(want, target_idx=tg), tg, label,
+                            deltas=True))
+                        ctx.case(key=label, nontrivial=order >= 1 or bs != ks,
+                                 sample={"relation": label, "terms": len(
+                                     Add.make_args(Expr(ov).expand().sympy)),
+                                     "derive_s": round(time.time() - t0, 1)},
+                                 kind=f"overlap_isr:{variant}")
                     # precursor overlap symmetric
-                    if bs == ks and order <= (2 if quick else 3):
+                    if bs == ks and order <= (2 if quick and not only_prec
+                                              else 3):
                         try:
                             s1 = isr.overlap_precursor(order, f"{bs},{ks}",
                                                        f"{ib},{ik}")
